@@ -548,5 +548,33 @@ def rule_k(ctx: Ctx) -> None:
                 '`xsd_type is self.type`, otherwise a fresh empty group.')
 
 
-RULES = [rule_a, rule_b, rule_c, rule_d, rule_e, rule_f, rule_g, rule_h, rule_i, rule_j, rule_k]
+def rule_l(ctx: Ctx) -> None:
+    """The complete attribute wildcard of a type that has an anyAttribute of its own *and* wildcards inherited through attribute group references is the
+    intersection of the namespace constraints with the {process contents} of the local wildcard (Complete Wildcard).  The parser intersects a copy of the
+    inherited wildcard with the local one - the copy still carries the group's processContents, so the local value has to be put in explicitly."""
+    rule = 'C03.l'
+    f = ctx.idx.cls(AG).methods['_parse']
+    ctx.analysed(f.qualname)
+    n = 0
+    for blk_owner in ast.walk(f.node):
+        for fld in ('body', 'orelse'):
+            blk = getattr(blk_owner, fld, None)
+            if not isinstance(blk, list):
+                continue
+            for i, st in enumerate(blk):
+                cs = [c for c in calls(st) if isinstance(c.func, ast.Attribute) and c.func.attr == 'intersection' and c.args and text(c.args[0]) == 'any_attribute'] \
+                    if isinstance(st, ast.Expr) else []
+                if not cs:
+                    continue
+                n += 1
+                recv = text(cs[0].func.value)
+                ok = any(isinstance(s2, ast.Assign) and text(s2.targets[0]) == f'{recv}.process_contents' and text(s2.value) == 'any_attribute.process_contents' for s2 in blk[i + 1:])
+                ctx.ob(rule, f'XsdAttributeGroup._parse: after `{text(cs[0])}` the complete wildcard takes the processContents of the local anyAttribute', f.loc(st), ok,
+                       '' if ok else f'`{recv}` is a copy of the wildcard inherited from an attribute group and keeps that group\'s processContents: a local anyAttribute '
+                       'processContents="strict" is downgraded to the group\'s "skip" and attributes without a declaration are accepted', key='_parse|complete-wildcard-process-contents')
+    ctx.floor(rule, 'intersections of an inherited wildcard with the local anyAttribute', n, 1)
+    ctx.explain('C03.l: in the block of XsdAttributeGroup._parse that calls `<copy>.intersection(any_attribute)` a later statement assigns `<copy>.process_contents = any_attribute.process_contents`.')
+
+
+RULES = [rule_a, rule_b, rule_c, rule_d, rule_e, rule_f, rule_g, rule_h, rule_i, rule_j, rule_k, rule_l]
 THOROUGH = [thorough]
